@@ -324,8 +324,9 @@ def located(text: str, err: str):
         act = [l.strip() for l in _act_source_lines(lines) if l.strip()]
         if not act:
             return None  # nothing to show: the act phase is empty (e.g. `actor = command` without an action)
-        if any(l in shown for l in act):
-            return None
+        for view in (lines, _UNIVERSAL_NL.split(text), text.splitlines()):
+            if any(l.strip() in shown for l in _act_source_lines(view) if l.strip()):
+                return None
         if 'actor' in text and re.search(r'\nActor "[^"\n]*"\n\n\n\n', err):
             # Exactly shows an EMPTY act phase.  With an explicitly configured actor that is possible although the
             # file has lines after an [act] header: an instruction with an unbalanced quote / missing last argument
